@@ -261,7 +261,7 @@ def run_tlc(module, cfg, wd, workers=8, timeout=900, simulate=None, extra=(), en
     meta = os.path.join(wd, "md-%s" % tag)
     shutil.rmtree(meta, ignore_errors=True)
     cmd = ["java", "-XX:+UseParallelGC", "-Xmx%s" % xmx, "-Xss256m", "-cp", _classpath(), "tlc2.TLC",
-           "-workers", str(workers), "-metadir", meta, "-cleanup", "-noGenerateSpecTE",
+           "-workers", str(workers), "-metadir", meta, "-cleanup", "-noGenerateSpecTE", "-maxSetSize", "50000000",
            "-config", cfg]
     if simulate:
         cmd += ["-simulate", simulate, "-seed", str(seed())]
